@@ -1,6 +1,7 @@
 package main
 
 import (
+	"os"
 	"fmt"
 	"runtime"
 	"strconv"
@@ -272,20 +273,30 @@ func dispatchSession(c *Ctx, p dispParams) {
 // calls Connect on the same client meanwhile. Lines of the next connection B count as later lines: none of their
 // handlers may start before A's handler has finished, and A's DISCONNECTED comes after all of A's handler invocations.
 func c03Reconnect(c *Ctx) {
-	for i := 0; i < c.Pick(4, 40); i++ {
+	for i := 0; i < c.Pick(12, 60); i++ {
 		nA, nB := c.R.Range(1, 6), c.R.Range(3, 30)
+		big := c.R.P(2, 3)
+		if big { // more lines than the input queue holds, slow handlers that do not block: lines are still queued when A ends
+			nA = c.R.Range(60, 200)
+		}
 		cause := c.R.Pick("close", "eof")
 		desc := fmt.Sprintf("reconnect while a handler of the old connection is still running: %d lines on A (the first handler blocks), A ended by %s, Connect from another goroutine, %d lines on B", nA, cause, nB)
+		if big {
+			desc = fmt.Sprintf("reconnect while the old connection's input queue is still full: %d lines on A (slow handlers), A ended by %s after a few of them, Connect from another goroutine, %d lines on B", nA, cause, nB)
+		}
 		c.Journal(desc)
-		rp := map[string]interface{}{"op": "reconnect-during-handler", "lines_a": nA, "lines_b": nB, "cause": cause}
+		rp := map[string]interface{}{"op": "reconnect-during-handler", "lines_a": nA, "lines_b": nB, "cause": cause, "queue_full_no_blocked_handler": big}
 		lg := &obsLog{}
 		gate := make(chan struct{})
 		sess, err := newSession(nil, func(cn *client.Conn) {
 			cn.HandleFunc("PRIVMSG", func(_ *client.Conn, l *client.Line) {
 				k, _ := strconv.Atoi(l.Text())
 				lg.add(fmt.Sprintf("E:%d:0:%d", k, k+1))
-				if k == 0 {
+				if k == 0 && !big {
 					<-gate
+				}
+				if big && k < nA {
+					time.Sleep(100 * time.Microsecond)
 				}
 				runtime.Gosched()
 				lg.add(fmt.Sprintf("X:%d:0:%d", k, k+1))
@@ -300,7 +311,11 @@ func c03Reconnect(c *Ctx) {
 		for k := 0; k < nA; k++ {
 			sess.srv.SendLine(fmt.Sprintf(":n!u@h PRIVMSG me :%d", k))
 		}
-		entered := waitFor(func() bool { lg.mu.Lock(); defer lg.mu.Unlock(); return len(lg.evs) > 0 }, 2*time.Second)
+		need := 1
+		if big {
+			need = 4
+		}
+		entered := waitFor(func() bool { lg.mu.Lock(); defer lg.mu.Unlock(); return len(lg.evs) >= need }, 2*time.Second)
 		if cause == "close" {
 			go conn.Close()
 		} else {
@@ -348,7 +363,10 @@ func c03Reconnect(c *Ctx) {
 		evs := append([]string(nil), lg.evs...)
 		lg.mu.Unlock()
 		c.Res.Traces++
-		if !entered || !gotB {
+		if gotB && !entered {
+			gotB = false
+		}
+		if !gotB {
 			c.Res.Inconclusive++
 			c.Dist("reconnect-during-handler/inconclusive")
 			continue
@@ -374,6 +392,9 @@ func c03Reconnect(c *Ctx) {
 			}
 		}
 		rp["log"] = evs
+		if os.Getenv("VERIF_DEBUG") != "" {
+			fmt.Fprintf(os.Stderr, "c03Reconnect big=%v nA=%d nB=%d gotB=%v lateA=%d evs=%d upToD=%d tail=%v\n", big, nA, nB, gotB, len(lateA), len(evs), len(upToD), evs[max(0, len(evs)-6):])
+		}
 		c.RunCases([]Case{
 			{Desc: desc + " [order across the reconnect]", Spec: []string{"spec03 " + strings.Join(noD, ",")}, Tag: "reconnect-during-handler", Key: fmt.Sprintf("%s/%d/%d", desc, i, c.Seed), Replay: rp},
 			{Desc: desc + " [DISCONNECTED after the old connection's handlers]", Spec: []string{"spec03 " + strings.Join(append(upToD, lateA...), ",")}, Tag: "reconnect-during-handler", Key: fmt.Sprintf("%s/%d/%d/D", desc, i, c.Seed), Replay: rp},
@@ -386,7 +407,9 @@ func c03Reconnect(c *Ctx) {
 // send queue is full and the server is not reading. Whatever the teardown does, a user handler that runs for that
 // JOIN must find the tracker reflecting it (the client is on the channel).
 func c05Teardown(c *Ctx) {
-	for i := 0; i < c.Pick(6, 60); i++ {
+	defer runtime.GOMAXPROCS(runtime.GOMAXPROCS(0))
+	for i := 0; i < c.Pick(16, 120); i++ {
+		runtime.GOMAXPROCS([]int{1, 2, 4, 16}[i%4])
 		cause := c.R.Pick("close", "eof", "readerr")
 		nfg, nbg := c.R.Range(1, 3), c.R.N(3)
 		desc := fmt.Sprintf("teardown (%s) while the state handler of the own JOIN is blocked on a full send queue; %d foreground + %d background JOIN handlers", cause, nfg, nbg)
@@ -476,6 +499,13 @@ func c05Teardown(c *Ctx) {
 }
 
 func c03(c *Ctx, prop string) {
+	// the short targeted scenarios first: a search that is cut off by its time budget has then seen them
+	if prop == "C03" {
+		c03Reconnect(c)
+	}
+	if prop == "C05" {
+		c05Teardown(c)
+	}
 	n := c.Pick(12, 120)
 	for i := 0; i < n; i++ {
 		p := dispParams{Lines: c.R.Range(20, c.Pick(120, 300)), NFg: c.R.Range(1, 3), NBg: c.R.N(3), MaxRead: []int{0, 1, 7, 64}[c.R.N(4)],
@@ -484,12 +514,6 @@ func c03(c *Ctx, prop string) {
 			p.Panics = true
 		}
 		dispatchSession(c, p)
-	}
-	if prop == "C03" {
-		c03Reconnect(c)
-	}
-	if prop == "C05" {
-		c05Teardown(c)
 	}
 	if prop == "C16" {
 		// a handler that panics while the connection is being torn down must not stop the teardown either
